@@ -85,6 +85,16 @@ class C07(core.Prop):
             {'col': {'name': 's', 'fam': 'object-str', 'cells': ['cat%02d' % i for i in range(21)]}, 'rex': False},
             {'col': {'name': 's', 'fam': 'object-str', 'cells': ['cat%02d' % i for i in range(20)]}, 'rex': False},
             {'col': {'name': 'f', 'fam': 'float64', 'cells': [0.0, None, None]}, 'rex': False},
+            # every sign class at its boundary
+            {'col': {'name': 'np', 'fam': 'int64', 'cells': [-3, 0, -1]}, 'rex': False},
+            {'col': {'name': 'nn', 'fam': 'int64', 'cells': [0, 5, 0]}, 'rex': False},
+            {'col': {'name': 'neg', 'fam': 'float64', 'cells': [-2.5, -0.5]}, 'rex': False},
+            {'col': {'name': 'pos', 'fam': 'Int64', 'cells': [1, None, 7]}, 'rex': False},
+            {'col': {'name': 'z', 'fam': 'float64', 'cells': [0.0, 0.0]}, 'rex': False},
+            {'col': {'name': 'mix', 'fam': 'int64', 'cells': [-1, 1]}, 'rex': False},
+            {'kind': 'db', 'table': {'nrows': 3, 'cols': [{'name': 'np', 'decl': 'integer', 'cells': [-7, 0, None]},
+                                                          {'name': 'b', 'decl': 'boolean', 'cells': [True, False, True]},
+                                                          {'name': 'r', 'decl': 'real', 'cells': [-0.5, -2.25, -0.5]}]}},
         ]
 
     def gen_case(self, rng, i):
@@ -231,8 +241,33 @@ class C07(core.Prop):
         got = {}
         if cs is not None and name in cs.fields:
             got = {k: c.value for k, c in cs.fields[name].constraints.items()}
+            self._reported(fail, cs, name, got, fam)
         self._judge(fail, got, ftype, fam, cells)
         return F
+
+    def _reported(self, fail, cs, name, got, fam):
+        """what discovery *reports* (the dictionary / .tdda form) carries the same statistics as the constraint objects"""
+        import datetime as _dt
+        from tdda.constraints.base import DatasetConstraints
+        try:
+            back = DatasetConstraints()
+            back.initialize_from_dict(json.loads(cs.to_json()))
+            rep = {k: c.value for k, c in back.fields[name].constraints.items()}
+        except Exception as e:   # noqa  (serialisation problems are C09's clauses)
+            return
+
+        def canon(v):
+            if hasattr(v, 'to_pydatetime'):
+                v = v.to_pydatetime(warn=False) if 'warn' in v.to_pydatetime.__code__.co_varnames else v.to_pydatetime()
+            if isinstance(v, _dt.date) and not isinstance(v, _dt.datetime):
+                v = _dt.datetime(v.year, v.month, v.day)
+            if isinstance(v, _dt.datetime) and v.tzinfo is not None:
+                v = v.astimezone(_dt.timezone.utc)
+            return v
+        for k in ('min', 'max'):
+            if k in got and canon(rep.get(k)) != canon(got[k]):
+                fail('reported-differs', 'the reported %s %r is not the statistic %r' % (k, rep.get(k), got[k]),
+                     'reported-differs:' + k + (':' + fam if fam in ('datetime-tz', 'object-date') else ''))
 
     def _judge(self, fail, got, ftype, fam, cells):
         """the statement, clause by clause, against the statistics recomputed from the cells"""
